@@ -21,14 +21,25 @@
 (***************************************************************************)
 EXTENDS XDM, TLC
 
-VARIABLES phase,   \* "pick" "ser" "text" "parse" "done"
+CONSTANTS StaticCfgs,  \* names of static-context configurations of the evaluating parser (base URI absent /
+                       \* absolute / relative, default collation, namespace maps with and without a default
+                       \* namespace, XSD version, strict, compatibility mode).  The behaviour is quantified over
+                       \* them (variable cfg, chosen with the context node) and the law does not mention cfg:
+                       \* the round trip must not depend on the static context.
+          PrologMode   \* "all": context node 0 also with comments / PIs BEFORE the root element (children of
+                       \* the document node; XDM.tla itself has the root element as only child); "none"
+
+VARIABLES cfg,     \* the static-context configuration
+          prolog,  \* comments / PIs before the root element (context node 0 only)
+          prolog2, \* ... as rebuilt by the parse
+          phase,   \* "pick" "ser" "text" "parse" "done"
           ctx,     \* context node (0 = the document node)
           cur,     \* next node of the walk
           stack,   \* open elements (serializer: node ids; parser: new ids)
           toks,    \* the serialized token sequence
           pos,     \* next token of the parse
           parent2, kind2    \* the rebuilt tree (sequences)
-rvars == <<phase, ctx, cur, stack, toks, pos, parent2, kind2>>
+rvars == <<cfg, prolog, prolog2, phase, ctx, cur, stack, toks, pos, parent2, kind2>>
 vars == <<parent, kind, rvars>>
 
 Top(s) == s[Len(s)]
@@ -39,14 +50,21 @@ LastOf(n) == IF n = 0 THEN N ELSE CHOOSE m \in n..N : /\ \A i \in (n + 1)..m : n
 First(n) == IF n = 0 THEN 1 ELSE n
 NameOf(k) == IF k \in {"ea", "xa"} THEN "a" ELSE IF k = "eb" THEN "b" ELSE "c"
 
+Prologs == IF PrologMode = "all" THEN {<<>>, <<"c">>, <<"p">>, <<"c", "p">>} ELSE {<<>>}
+LeafTok(k) == IF k = "c" THEN [k |-> "comment", name |-> ""] ELSE [k |-> "pi", name |-> "p"]
 Init == /\ TreeInit
+        /\ cfg = "" /\ prolog = <<>> /\ prolog2 = <<>>
         /\ phase = "pick" /\ ctx = 0 /\ cur = 0 /\ stack = <<>> /\ toks = <<>> /\ pos = 1
         /\ parent2 = <<>> /\ kind2 = <<>>
 
-Choose(n) == /\ phase = "pick"
+Choose(n, c, pr) ==
+             /\ phase = "pick"
              /\ (n = 0 \/ IsElem(n))
+             /\ c \in StaticCfgs /\ pr \in Prologs /\ (n # 0 => pr = <<>>)
+             /\ cfg' = c /\ prolog' = pr
+             /\ toks' = [i \in 1..Len(pr) |-> LeafTok(pr[i])]        \* the document node's leading children
              /\ phase' = "ser" /\ ctx' = n /\ cur' = First(n)
-             /\ UNCHANGED <<parent, kind, stack, toks, pos, parent2, kind2>>
+             /\ UNCHANGED <<parent, kind, stack, pos, parent2, kind2, prolog2>>
 
 InWalk == cur <= LastOf(ctx)
 Attached == IF stack = <<>> THEN cur = First(ctx) ELSE parent[cur] = Top(stack)
@@ -60,19 +78,20 @@ EmitNode ==
                              ELSE [k |-> "pi", name |-> "p"])
      /\ stack' = IF k \in ElemKinds THEN Append(stack, cur) ELSE stack
   /\ cur' = cur + 1
-  /\ UNCHANGED <<parent, kind, phase, ctx, pos, parent2, kind2>>
+  /\ UNCHANGED <<parent, kind, phase, ctx, pos, parent2, kind2, cfg, prolog, prolog2>>
 EmitEnd ==
   /\ phase = "ser" /\ stack # <<>> /\ (IF InWalk THEN ~Attached ELSE TRUE)
   /\ toks' = Append(toks, [k |-> "end", name |-> NameOf(kind[Top(stack)])])
   /\ stack' = Pop(stack)
-  /\ UNCHANGED <<parent, kind, phase, ctx, cur, pos, parent2, kind2>>
+  /\ UNCHANGED <<parent, kind, phase, ctx, cur, pos, parent2, kind2, cfg, prolog, prolog2>>
 SerDone ==
   /\ phase = "ser" /\ ~InWalk /\ stack = <<>>
   /\ phase' = "text"
-  /\ UNCHANGED <<parent, kind, ctx, cur, stack, toks, pos, parent2, kind2>>
+  /\ UNCHANGED <<parent, kind, ctx, cur, stack, toks, pos, parent2, kind2, cfg, prolog, prolog2>>
 
 StartParse == /\ phase = "text" /\ phase' = "parse" /\ pos' = 1 /\ stack' = <<>> /\ parent2' = <<>> /\ kind2' = <<>>
-              /\ UNCHANGED <<parent, kind, ctx, cur, toks>>
+              /\ prolog2' = <<>>
+              /\ UNCHANGED <<parent, kind, ctx, cur, toks, cfg, prolog>>
 KindOfTok(t) == CASE t.k = "start" -> IF t.name = "a" THEN "ea" ELSE "eb"
                   [] t.k = "att" -> IF t.name = "a" THEN "xa" ELSE "xc"
                   [] t.k = "text" -> "t" [] t.k = "comment" -> "c" [] t.k = "pi" -> "p"
@@ -81,24 +100,29 @@ ParseTok ==
   /\ LET t == toks[pos] IN
      IF t.k = "end"
      THEN /\ stack # <<>> /\ NameOf(kind2[Top(stack)]) = t.name      \* well-formedness of the text
-          /\ stack' = Pop(stack) /\ UNCHANGED <<parent2, kind2>>
-     ELSE /\ (t.k = "att" => (stack # <<>> /\ pos > 1 /\ toks[pos - 1].k \in {"start", "att"}))
+          /\ stack' = Pop(stack) /\ UNCHANGED <<parent2, kind2, prolog2>>
+     ELSE IF t.k \in {"comment", "pi"} /\ stack = <<>> /\ kind2 = <<>>
+     THEN /\ prolog2' = Append(prolog2, KindOfTok(t))               \* a child of the document node before the root
+          /\ UNCHANGED <<parent2, kind2, stack>>
+     ELSE /\ UNCHANGED prolog2
+          /\ (t.k = "att" => (stack # <<>> /\ pos > 1 /\ toks[pos - 1].k \in {"start", "att"}))
           /\ kind2' = Append(kind2, KindOfTok(t))
           /\ parent2' = Append(parent2, IF stack = <<>> THEN 0 ELSE Top(stack))
           /\ stack' = IF t.k = "start" THEN Append(stack, Len(kind2) + 1) ELSE stack
   /\ pos' = pos + 1
-  /\ UNCHANGED <<parent, kind, phase, ctx, cur, toks>>
+  /\ UNCHANGED <<parent, kind, phase, ctx, cur, toks, cfg, prolog>>
 ParseDone == /\ phase = "parse" /\ pos > Len(toks) /\ stack = <<>>
              /\ phase' = "done"
-             /\ UNCHANGED <<parent, kind, ctx, cur, stack, toks, pos, parent2, kind2>>
+             /\ UNCHANGED <<parent, kind, ctx, cur, stack, toks, pos, parent2, kind2, cfg, prolog, prolog2>>
 
-Next == \/ \E n \in 0..N : Choose(n)
+Next == \/ \E n \in 0..N, c \in StaticCfgs, pr \in Prologs : Choose(n, c, pr)
         \/ EmitNode \/ EmitEnd \/ SerDone \/ StartParse \/ ParseTok \/ ParseDone
 Spec == Init /\ [][Next]_vars
 
 ---------------------------------------------------------------------------
 Size(n) == LastOf(n) - First(n) + 1
 RoundTrip == phase = "done" =>
+  /\ prolog2 = prolog
   /\ Len(kind2) = Size(ctx) /\ Len(parent2) = Size(ctx)
   /\ \A i \in 1..Size(ctx) :
        /\ kind2[i] = kind[First(ctx) + i - 1]
@@ -106,7 +130,7 @@ RoundTrip == phase = "done" =>
 (* the serialized text is balanced, and no parse step ever blocks (the run always reaches "done") *)
 Balanced == phase = "text" =>
   /\ Cardinality({i \in 1..Len(toks) : toks[i].k = "start"}) = Cardinality({i \in 1..Len(toks) : toks[i].k = "end"})
-  /\ Len(toks) = Size(ctx) + Cardinality({i \in First(ctx)..LastOf(ctx) : kind[i] \in ElemKinds})
+  /\ Len(toks) = Len(prolog) + Size(ctx) + Cardinality({i \in First(ctx)..LastOf(ctx) : kind[i] \in ElemKinds})
 NoStuck == (phase \in {"ser", "parse"}) => ENABLED Next
 RLaws == RoundTrip /\ Balanced /\ NoStuck
 =============================================================================
